@@ -186,7 +186,11 @@ CHECKS = {
                 "emitted model: .nic iff all introns annotated, never the chain of a reference transcript present in the graph, novel_gene_* gene "
                 "without a reference gene, definite strand under only_canonical/only_stranded, minimal read support, >=1 supporting read listed, "
                 "introns = path introns, and supporting-read records only for reported models. detect_similar_isoforms (real assigner underneath) "
-                "on two novel models with one intron chain and symbolic ends: at least one is marked redundant.",
+                "on two novel models with one intron chain and symbolic ends: at least one is marked redundant. Intron evidence: the real "
+                "IntronCollector.cluster_introns / simplify_correction_map on 2 (quick) / 3 (thorough) read introns at solver-chosen offsets "
+                "around two junctions with SYMBOLIC read counts and annotation membership (kept/substituted/discarded partition, substitutes "
+                "are similar kept read introns, counts conserved, no chain ends in a discarded intron), and the real IntronGraph on 2-3 reads "
+                "with solver-chosen chains: every vertex that survives simplification is an intron of some read.",
         "note": "Trusted: z3, symx proxies, stub assigner/profile constructor inside construct_fl_isoforms. Intron clustering and graph "
                 "simplification (intron_graph.py) are NOT encoded: 'every intron occurs in a read' is shown only relative to the path storage. "
                 "One known finding (same chain, staggered ends: both kept) is excluded by its input class.",
